@@ -550,6 +550,31 @@ pub fn run(rep: &Report) {
         rep.add_distinct(jobs.len() as u64 * 5);
         rep.extra("tiny_plaintext_nonce_sweep", json!({"keys":keys.len(),"nonces":nn,"plaintexts":5}));
     }
+    // (e00) SHA-256 of inputs around and beyond 1 MiB (not multiples of any convenient block), HKDF at its last lengths
+    {
+        let big = plaintext(seed ^ 0x19b, (3 << 20) + 100);
+        let lens = [(1usize << 20) - 1, 1 << 20, (1 << 20) + 1, (1 << 20) + 64, (2 << 20) - 1, (2 << 20) + 17, (3 << 20) + 100];
+        lens.par_iter().for_each(|&l| {
+            rep.eval(1);
+            rep.nontrivial(format!("sha256-big-{}", l).as_bytes());
+            match guarded(|| kc::sha256(&big[..l])) {
+                Ok(got) if got[..] == r::sha256(&big[..l])[..] => {}
+                Ok(_) => rep.violation("sha256-differs", json!({"kind":"sha-big","len":l}), format!("SHA-256 of a {}-byte input differs from FIPS 180-4", l)),
+                Err(p) => rep.violation("sha256-panic", json!({"kind":"sha-big","len":l}), format!("SHA-256 of a {}-byte input panicked: {}", l, p)),
+            }
+        });
+        let ikm = derive(seed, "c19-hkdf-max-ikm", 32);
+        for l in [8129usize, 8159, 8160] {
+            rep.eval(1);
+            rep.nontrivial(format!("hkdf-max-{}", l).as_bytes());
+            let want = r::hkdf_sha256(b"salt", &ikm, b"info", l);
+            match guarded(|| kc::hkdf_sha256(b"salt", &ikm, b"info", l)) {
+                Ok(got) if got == want => {}
+                Ok(got) => rep.violation("hkdf-differs", json!({"kind":"hkdf","shape":"max-length","len":l,"salt":hx(b"salt"),"ikm":hx(&ikm),"info":hx(b"info")}), format!("HKDF output of length {} differs from RFC 5869 ({} bytes returned)", l, got.len())),
+                Err(p) => rep.violation("hkdf-panic", json!({"kind":"hkdf","shape":"max-length","len":l,"salt":hx(b"salt"),"ikm":hx(&ikm),"info":hx(b"info")}), format!("HKDF at length {} panicked: {}", l, p)),
+            }
+        }
+    }
     // (e0) HKDF outputs chosen by VALUE: among 4096 (length 1) and 262144 (length 2) different infos, those whose correct
     // output is all zero (about 16 and 4 of them) -- and every other one -- must come out as RFC 5869 says
     {
@@ -684,6 +709,13 @@ pub fn replay(rep: &Report, case: &Value) {
         "aead-alter" => aead_alter_case(rep, &a32(g("key")), &a12(g("nonce")), &g("aad"), &g("pt")),
         "aead-short" => short_case(rep, &a32(g("key")), &a12(g("nonce")), case["len"].as_u64().unwrap() as usize, case["fill"].as_u64().unwrap() as u8),
         "x25519" => x25519_case(rep, case["k_name"].as_str().unwrap_or("k"), &a32(g("scalar")), case["u_name"].as_str().unwrap_or("u"), &a32(g("u"))),
+        "sha-big" => {
+            let l = case["len"].as_u64().unwrap() as usize;
+            let big = plaintext(rep.seed ^ 0x19b, (3 << 20) + 100);
+            if kc::sha256(&big[..l])[..] != r::sha256(&big[..l])[..] {
+                rep.violation("sha256-differs", case.clone(), "differs".into());
+            }
+        }
         "concurrent" => concurrent_primitives(rep),
         "aead-4gib" => four_gib_message(rep),
         "tag-variant" => tag_variant_case(rep, case["which"].as_str().unwrap(), &a32(g("key")), case["counter"].as_str().unwrap().parse().unwrap(), &g("aad"), &g("pt")),
